@@ -36,6 +36,10 @@ def run(ctx):
     P = "C16-R1"
     from .confimm import rule_config_as_loaded
     rule_config_as_loaded(ctx, facts, "C16-R1")
+    # "later runs start from it": every lock value that can be issued (>= 1) is used; the reader's test of the value is a
+    # test against 0 and nothing stricter (C01-R8's accepted forms)
+    from .c01 import rule_lock_value_in_range
+    rule_lock_value_in_range(ctx, facts, prefix="C16-R7")
     # "`extensions` defaults to [rs]" / "an empty set of in-scope files": the list means what the finder's membership test
     # makes of it — the entry's extension, unmodified, compared exactly with the configured strings (C15-R1's rows)
     from . import c15 as _c15
